@@ -454,17 +454,24 @@ Definition custom (c : cls) (fs : fields) : bool :=
   end.
 
 (* ------------------------------------------------------------------ converters *)
+(* k, v = x *)
 Definition pair_of (v : pyval) : result pyval :=
   match v with
   | VTuple [a; b] | VList [a; b] => Ok (VTuple [a; b])
-  | VTuple _ | VList _ => Err ValueError
+  | VStr [a; b] => Ok (VTuple [VStr [a]; VStr [b]])
+  | VBytes [a; b] => Ok (VTuple [VInt (Z.of_N a); VInt (Z.of_N b)])
+  | VTuple _ | VList _ | VStr _ | VBytes _ | VDict _ | VIDict _ => Err ValueError
   | _ => Err TypeError
   end.
 
-(* tuplify_extra_headers: tuple((k, v) for k, v in value) *)
+(* tuplify_extra_headers: tuple((k, v) for k, v in value); a str iterates
+   over its characters, bytes over ints, a dict over its keys *)
 Definition tuplify_extra_headers (v : pyval) : result pyval :=
   match v with
   | VTuple l | VList l => rbind (rmap pair_of l) (fun l' => Ok (VTuple l'))
+  | VStr s => rbind (rmap pair_of (map (fun c => VStr [c]) s)) (fun l' => Ok (VTuple l'))
+  | VBytes b => rbind (rmap pair_of (map (fun c => VInt (Z.of_N c)) b)) (fun l' => Ok (VTuple l'))
+  | VDict l | VIDict l => rbind (rmap pair_of (map fst l)) (fun l' => Ok (VTuple l'))
   | _ => Err TypeError
   end.
 
@@ -473,7 +480,13 @@ Definition apply_conv (c : conv) (v : pyval) : result pyval :=
   | CNone => Ok v
   | CFreeze => match v with VDict l => Ok (VIDict l) | _ => Ok v end        (* freeze_optional_dict *)
   | CTuplifyHeaders => tuplify_extra_headers v
-  | CInt => match v with VInt z => Ok (VInt z) | VBool b => Ok (VInt (if b then 1 else 0)) | _ => Err TypeError end
+  | CInt =>                                                (* int(v); of a str / bytes only plain decimals are modelled *)
+      match v with
+      | VInt z => Ok (VInt z)
+      | VBool b => Ok (VInt (if b then 1 else 0))
+      | VStr s | VBytes s => match parse_dec_Z s with Some z => Ok (VInt z) | None => Err ValueError end
+      | _ => Err TypeError
+      end
   | CDiscoveryDate =>                                                        (* normalize_discovery_date *)
       match v with
       | VDate us _ => Ok (VDate (us - us mod 1000000) 0)
